@@ -169,6 +169,16 @@ func init() {
 			Implies(Lt(b0, IntLit(0x80)), And(Eq(w, IntLit(1)), Eq(c, b0))))))
 		return tuple2(callee.Signature.Results(), &Val{T: Ite(empty, IntLit(0xFFFD), c), Typ: types.Typ[types.Rune]}, &Val{T: Ite(empty, IntLit(0), w), Typ: intT})
 	}
+	prelude["unicode/utf8.RuneCountInString"] = func(x *Exec, st *State, callee *ssa.Function, args []*Val, pos token.Pos) *Val {
+		x.trusted["A-UTF8"] = true
+		s := args[0].T
+		if l, ok := literalOf(s); ok {
+			return &Val{T: IntLit(int64(len([]rune(l)))), Typ: types.Typ[types.Int]}
+		}
+		cnt := UF("gs.runecount", SInt, s)
+		x.ctx.assumeGlobal(st, And(Ge(cnt, IntLit(0)), Le(cnt, strLen(s)), Implies(Gt(strLen(s), IntLit(0)), Gt(cnt, IntLit(0))), Le(strLen(s), Mul(IntLit(4), cnt))))
+		return &Val{T: cnt, Typ: types.Typ[types.Int]}
+	}
 	prelude["unicode/utf8.RuneStart"] = func(x *Exec, st *State, callee *ssa.Function, args []*Val, pos token.Pos) *Val {
 		x.trusted["A-UTF8"] = true
 		b := args[0].T
